@@ -24,6 +24,11 @@ CLAIMED = {
   "text": "Decides, for every function that consumes backend-produced bytes, that type assertions are comma-ok, there is no explicit panic, no integer division by an unguarded non-constant, and no index computed from a decoded number without a bounds comparison; that listing/health response bodies are size-limited before buffering; that all nine listing parsers skip nameless entries (guard on the very value stored as Name) and answer empty input alike; and that metrics fields only receive SafeInt32/SafeFloat32 results. It does not decide nil dereferences or hangs.",
   "note": "Trusted: third-party decoders (jsoniter, gjson, expr, encoding/json) do not panic; consumer scope is defined by package (listed in evidence). Catalogue consistency after a rejected listing is C10-R1/R5.",
  },
+ "C18": {
+  "technique": "static analysis: interface-satisfaction check of ResponseWriter wrappers, path search with flag-derived pruning (Write→Flush), blocking-select check of armed timers, context provenance, goroutine send lint, pipe release typestate",
+  "text": "Decides structural necessary conditions of live streaming and stall cut-off: wrappers on the response path are flush-transparent; after a successful relay write every streaming path flushes; a timer armed with the read timeout is awaited in a blocking select; upstream requests carry the caller's context; per-request goroutine sends cannot block for ever; a handler never waits for the proxy goroutine while the pipe it writes into is neither drained nor closed; only Close is deferred on the upstream body. Timing itself is not decided.",
+  "note": "Trusted: http.ResponseController's documented lookup of Flush/Unwrap; io.Pipe blocking semantics. Known genuine defect F15 (olla engine only polls its read deadline) is in known_findings.json; F17 (translated stream hang after client cancel) was fixed in /repo commit 8e6b66f.",
+ },
 }
 _PENDING = "check not built yet in this session; see DESIGN.md §5 for the planned static rules"
 NOT_APPLICABLE = {f"C{i:02d}": _PENDING for i in range(1, 21)}
